@@ -453,6 +453,10 @@ func runC14(t *testing.T, rep *mc.Reporter) {
 				rep.Exec(cs, rp.Choices, mc.Result{Verdict: "machinery", Clause: mach})
 				return
 			}
+			if len(cs.Topo) > 0 {
+				rep.Exec(cs, rp.Choices, oracleC19Bi(cs, &rec))
+				return
+			}
 			rep.Exec(cs, rp.Choices, oracleC14(view, &rec))
 			return
 		}
@@ -503,6 +507,7 @@ func runC14(t *testing.T, rep *mc.Reporter) {
 		pre   []int
 		auto  bool
 		same  bool
+		topo  []string
 	}
 	var cplans []cplan
 	for _, ls := range laneSeqs {
@@ -532,6 +537,19 @@ func runC14(t *testing.T, rep *mc.Reporter) {
 	if !budget.Deadline.IsZero() && tier == "thorough" {
 		cbudget.Deadline = time.Now().Add(time.Until(budget.Deadline) * 2 / 5)
 	}
+	// bidirectional units while the slot of lane 0 migrates: each unit is a real MULTI/EXEC through
+	// the cluster client's transaction batcher, which retries the WHOLE transaction at the node a
+	// MOVED/ASK names or reports a restart. Part of C19 (VERIF_FAMILY=ctopo); not run by C14 itself.
+	var tplans []cplan
+	for _, mode := range []string{"sync", "parallel"} {
+		for _, tp := range [][]string{{"O"}, {"M", "F"}, {"M", "K", "F"}, {"M"}} {
+			tb := 1
+			if tier == "thorough" {
+				tb = 2
+			}
+			tplans = append(tplans, cplan{lanes: []int{0, 1, 0}, bound: tb, mode: mode, topo: tp})
+		}
+	}
 	fam := os.Getenv("VERIF_FAMILY") // development aid / parts: "cauto" = only the AutoFlush cluster plan
 	if fam == "cauto" {
 		var keep []cplan
@@ -543,6 +561,10 @@ func runC14(t *testing.T, rep *mc.Reporter) {
 		cplans = keep
 		plans = nil
 	}
+	if fam == "ctopo" {
+		cplans = tplans
+		plans = nil
+	}
 	for _, cp := range cplans {
 		// one execution costs about half a second (every start scans the 16384 slots): all shards
 		// share each of these scenarios, divided at the root of its execution tree
@@ -550,7 +572,10 @@ func runC14(t *testing.T, rep *mc.Reporter) {
 			rep.Capped("cluster scenarios: their share of the deadline is used up")
 			break
 		}
-		cscn := c14cScenario{Lanes: cp.lanes, Cfg: biCfg{cp.mode, 2}, MaxCrashes: ccrashes, Idle: 1, Cluster: true, Soft: cp.soft, Pre: cp.pre, AutoFlush: cp.auto, PreSameLife: cp.same}
+		cscn := c14cScenario{Lanes: cp.lanes, Cfg: biCfg{cp.mode, 2}, MaxCrashes: ccrashes, Idle: 1, Cluster: true, Soft: cp.soft, Pre: cp.pre, AutoFlush: cp.auto, PreSameLife: cp.same, Topo: cp.topo}
+		if len(cp.topo) > 0 {
+			cscn.MaxCrashes = 0
+		}
 		if cp.soft {
 			cscn.MaxCrashes, cscn.Idle = 0, 0
 		}
@@ -563,6 +588,9 @@ func runC14(t *testing.T, rep *mc.Reporter) {
 			if mach != "" {
 				return mc.Result{Verdict: "machinery", Clause: mach}
 			}
+			if len(cscn.Topo) > 0 {
+				return oracleC19Bi(cscn, &rec)
+			}
 			return oracleC14(view, &rec)
 		})
 	}
@@ -574,6 +602,9 @@ func runC14(t *testing.T, rep *mc.Reporter) {
 	if tier == "thorough" {
 		pbound = 2
 		pseqs = append(pseqs, []string{"w1", "w2", "t2"}, []string{"w1", "p", "t2", "w1"})
+	}
+	if fam != "" {
+		pseqs = nil
 	}
 	for _, ps := range pseqs {
 		for _, cfg := range allCfg {
